@@ -201,6 +201,34 @@ def check_metric(case):
         except Exception as ex:
             dis.append({"clause": "Raises", "detail": "%s raised %s: %s" % (what, type(ex).__name__, str(ex)[:60])})
             continue
+        if sub == "default" and abs(signed) < 2 * math.pi - 1e-9 and abs(a - b) > 1e-9 * rmax:
+            # the same end points through the SVG parameters, the x-axis rotation handed over as an Angle object, as a
+            # float and as an int-valued float: whatever ellipse the constructor settles on, the arc's own end points lie
+            # on it and the curves stay within the bound of it (measured against the OBJECT's centre, radii and rotation)
+            large, sw = (1 if abs(signed) > math.pi else 0), (1 if signed > 0 else 0)
+            for rname, rarg in (("Angle", svg.Angle.degrees(math.degrees(rot))), ("float", math.degrees(rot))):
+                try:
+                    a3 = svg.Arc(P(*f(0.0)), a, b, rarg, large, sw, P(*f(1.0)))
+                    th = a3.get_rotation()
+                    c3, s3 = math.cos(th), math.sin(th)
+
+                    def d3(p):
+                        x, y = p.x - a3.center.x, p.y - a3.center.y
+                        return ellipse_distance(a3.rx, a3.ry, c3 * x + s3 * y, -s3 * x + c3 * y)
+                    r3 = max(a3.rx, a3.ry)
+                    if d3(a3.start) > 1e-7 * r3 or d3(a3.end) > 1e-7 * r3:
+                        dis.append({"clause": "JointOffArc", "detail": "%s [SVG parameters, rotation as %s]: the arc's end points are %.3g and %.3g away from its own ellipse" % (
+                            what, rname, d3(a3.start), d3(a3.end))})
+                        continue
+                    ch3 = list(a3.as_cubic_curves() if degree == "cubic" else a3.as_quad_curves())
+                    worst = max([d3(g.point(j / 8.0)) for g in ch3 for j in range(9)] + [0.0])
+                    if worst / r3 > bound:
+                        dis.append({"clause": "ErrorBound", "degree": degree, "rel_dev": worst / r3,
+                                    "detail": "%s [SVG parameters, rotation as %s]: points stray %.3g x the larger radius from the arc's ellipse (bound %g)" % (what, rname, worst / r3, bound)})
+                except engine.CaseTimeout:
+                    raise
+                except Exception as ex:
+                    dis.append({"clause": "Raises", "detail": "%s (SVG parameters, rotation as %s) raised %s: %s" % (what, rname, type(ex).__name__, str(ex)[:60])})
         if sub == "default":
             # the same arc OBJECT converted again after it was reversed in place (a conversion must not remember the old direction)
             try:
